@@ -197,7 +197,14 @@ class Interp(object):
       return f(v.t)
     if isinstance(v, (SSet, SMap)):
       self.unsupported("truthiness of a symbolic set/map")
-    if isinstance(v, (ObjVal, FuncVal, BoundMethod, Model)): return True
+    if isinstance(v, ObjVal):
+      for dunder in ("__bool__", "__len__"):
+        m = self.lookup_method(v, dunder)
+        if m is not None and not isinstance(m, tuple):
+          r = self.call(m, [], {})
+          return self.truth(r)
+      return True
+    if isinstance(v, (FuncVal, BoundMethod, Model)): return True
     return bool(v)
 
   def uf(self, name, dom, rng):
@@ -297,6 +304,9 @@ class Interp(object):
     if isinstance(a, SOpq) and isinstance(b, SOpq) and a.kind == b.kind:
       f = self.contract.opq_lt.get(a.kind) if self.contract else None
       if f: return f(self, a, b)
+    if isinstance(a, ObjVal) and isinstance(b, ObjVal) and self.contract and \
+        a.cls_name in self.contract.obj_lt:
+      return self.contract.obj_lt[a.cls_name](self, a, b)
     if isinstance(a, tuple) and isinstance(b, tuple):
       # lexicographic, python semantics (== first, then <)
       res = len(a) < len(b)
